@@ -147,4 +147,8 @@ def run(ctx):
     gen = ctx.family("generic")
     gen.each_bin(per_bin)
     ctx.cov["generic_programs"] = len(gen.progs)
+    # messages renamed on the wire by a forwarded serde attribute: the helpers must still produce what the target accepts
+    ren = ctx.family("renamed")
+    ren.each_bin(per_bin)
+    ctx.cov["renamed_programs"] = len(ren.progs)
     ctx.cov["programs"] = len(fam.progs)
